@@ -31,6 +31,20 @@ def calls_named(b, *n):
     return [(bb, t) for bb, t in b.calls() if callee_is(t, *n)]
 
 
+def fail_closed_if_delegated(F, b, found, *names):
+    """the per-body rules need the hook / serve calls in the wrapper's own body.  If some are missing here but present in a local helper function the body
+    calls (e.g. an `async fn vetted(hook, ctx, req)` shared by several wrappers), the rules do not apply to this shape: cannot decide (no verdict either way)"""
+    if found:
+        return
+    for bb, t in b.calls():
+        h = F.callee_fn(t)
+        if h is None:
+            continue
+        for x in F.with_descendants(h):
+            if any(callee_is(t2, *names) for _, t2 in x.calls()):
+                raise CannotDecide('%s delegates its %s call to the helper %s: the wrapper rules are stated over the wrapper\'s own body' % (b.npath, names[0].split('::')[-1], h.npath))
+
+
 def continue_guard(F, P, b, hook_bb, target_bb):
     """is target_bb dominated by the Continue edge of a `?` on the awaited result of the call at hook_bb?"""
     pred = lambda x: any(r == ('call', b.id, hook_bb) for r, _ in P.root(x))
@@ -66,6 +80,8 @@ def run(ctx):
     analysed.append(hs.id)
     B = calls_named(hs, 'BeforeRequest::before')
     S = calls_named(hs, 'server::Serve::serve')
+    fail_closed_if_delegated(F, hs, B, 'BeforeRequest::before')
+    fail_closed_if_delegated(F, hs, S, 'server::Serve::serve')
     R.ob('C19.before', ('HookThenServe::serve', 'one hook call, one serve call'), len(B) == 1 and len(S) == 1,
          'the wrapper calls the before-hook once and the wrapped serve once', [hs.loc(t) for _, t in B + S] or [hs.loc(hs.d)])
     if len(B) == 1 and len(S) == 1:
@@ -92,6 +108,7 @@ def run(ctx):
     cons = coroutine_of(F, F.trait_method('BeforeRequest', 'request_hook::before::BeforeRequestCons', 'before'))
     analysed.append(cons.id)
     B = calls_named(cons, 'BeforeRequest::before')
+    fail_closed_if_delegated(F, cons, B, 'BeforeRequest::before')
     R.ob('C19.cons', ('BeforeRequestCons::before', 'two hook calls'), len(B) == 2, 'the cons cell runs exactly its two members', [cons.loc(t) for _, t in B] or [cons.loc(cons.d)])
     if len(B) == 2:
         def which_field(t):
@@ -208,6 +225,8 @@ def run(ctx):
     def after_rules(b, tag, need_before):
         S = calls_named(b, 'server::Serve::serve')
         A = calls_named(b, 'AfterRequest::after')
+        fail_closed_if_delegated(F, b, S, 'server::Serve::serve')
+        fail_closed_if_delegated(F, b, A, 'AfterRequest::after')
         R.ob(tag, (tag_name[tag], 'one serve call, one after call'), len(S) == 1 and len(A) == 1,
              'the wrapper calls the wrapped serve once and the after-hook once', [b.loc(t) for _, t in S + A] or [b.loc(b.d)])
         if len(S) != 1 or len(A) != 1:
@@ -300,6 +319,7 @@ def run(ctx):
     hsh = coroutine_of(F, hsh_m)
     analysed.append(hsh.id)
     B = calls_named(hsh, 'BeforeRequest::before')
+    fail_closed_if_delegated(F, hsh, B, 'BeforeRequest::before')
     R.ob('C19.both', ('HookThenServeThenHook::serve', 'one before call'), len(B) == 1, 'the combined hook runs its before part once', [hsh.loc(t) for _, t in B] or [hsh.loc(hsh.d)])
     res = after_rules(hsh, 'C19.both', True)
     if len(B) == 1 and res is not None:
